@@ -111,4 +111,44 @@ package polynomial
 //@   allocates
 //@   ensures result != nil
 //@   summary forall(j, party.ID, indom(result, j) ==> (result[j] != nil && scval(result[j]) == lagr(idsval(interpolationDomain), idsc(j))))
-//@   summary forall(j, party.ID, inslice(interpolationDomain, j) ==> indom(result, j))
+//@   ensures forall(j, party.ID, inslice(interpolationDomain, j) ==> indom(result, j))
+//@   ensures forall(j, party.ID, indom(result, j) ==> result[j] != nil)
+
+//@ func getScalarsAndNumerator
+//@   nopanic[C05]
+//@   requires group != nil
+//@   modifies nothing
+//@   allocates
+//@   ensures result0 != nil && result1 != nil
+//@   ensures forall(k, party.ID, indom(result0, k) ==> result0[k] != nil)
+//@   ensures forall(k, party.ID, inslice(interpolationDomain, k) ==> indom(result0, k))
+//@   loop 1: invariant each(interpolationDomain[:rangeindex+1], x, indom(scalars, x))
+//@   loop 1: invariant numerator != nil && fresh(numerator) && fresh(scalars)
+//@   loop 1: invariant forall(k, party.ID, indom(scalars, k) ==> scalars[k] != nil)
+
+// lagrange dereferences interpolationDomain[j]: j outside the domain is a nil scalar and panics in tmp.Set, so
+// membership is a precondition (every caller in the module passes subset == domain).
+//@ func lagrange
+//@   nopanic[C05]
+//@   requires group != nil && numerator != nil && interpolationDomain != nil
+//@   requires indom(interpolationDomain, j)
+//@   requires forall(k, party.ID, indom(interpolationDomain, k) ==> interpolationDomain[k] != nil)
+//@   modifies nothing
+//@   allocates
+//@   ensures result != nil && fresh(result)
+//@   loop 1: invariant denominator != nil && fresh(denominator) && tmp != nil && fresh(tmp)
+
+//@ func LagrangeFor
+//@   nopanic[C05]
+//@   requires group != nil
+//@   requires forall(k, party.ID, inslice(subset, k) ==> inslice(interpolationDomain, k))
+//@   modifies nothing
+//@   allocates
+//@   ensures result != nil
+//@   ensures forall(k, party.ID, indom(result, k) ==> result[k] != nil)
+//@   ensures forall(k, party.ID, inslice(subset, k) ==> indom(result, k))
+//@   loop 1: invariant fresh(coefficients)
+//@   loop 1: invariant forall(k, party.ID, indom(coefficients, k) ==> coefficients[k] != nil)
+//@   loop 1: invariant each(subset[:rangeindex+1], x, indom(coefficients, x))
+//@   loop 1: invariant scalars != nil && numerator != nil && forall(k, party.ID, indom(scalars, k) ==> scalars[k] != nil)
+//@   loop 1: invariant forall(k, party.ID, inslice(interpolationDomain, k) ==> indom(scalars, k))
